@@ -1383,6 +1383,24 @@ def show_keys(
         and isinstance(expression.this, str)
         and expression.this.upper() == f"{snowflake_kind} KEYS"
     ):
+        # the scope decides which database, schema and table are looked at; without one it is the current database
+        scope_kind = expression.args.get("scope_kind")
+        scope = expression.args.get("scope") if scope_kind else None
+        database, schema, table_name = current_database, None, None
+        if scope_kind == "DATABASE":
+            database = (scope and scope.name) or current_database
+        elif scope_kind == "SCHEMA":
+            database = (scope and scope.db) or current_database
+            schema = scope and scope.name
+        elif scope_kind == "TABLE":
+            if not scope:
+                raise ValueError(f"SHOW PRIMARY KEYS with {scope_kind} scope requires a table")
+            database = scope.catalog or current_database
+            schema = scope.db or None
+            table_name = scope.name
+        elif scope_kind:
+            raise NotImplementedError(f"SHOW PRIMARY KEYS with {scope_kind} not yet supported")
+
         if kind == "FOREIGN":
             statement = f"""
                 SELECT
@@ -1406,9 +1424,9 @@ def show_keys(
                     'NOT DEFERRABLE' as deferrability,
                     'false' as rely,
                     null as "comment"
-                FROM duckdb_constraints
+                FROM system.main.duckdb_constraints
                 WHERE constraint_type = 'PRIMARY KEY'
-                  AND database_name = '{current_database}'
+                  AND database_name = '{database}'
                   AND table_name NOT LIKE '_fs_%'
                 """
         else:
@@ -1423,31 +1441,16 @@ def show_keys(
                     LOWER(CONCAT(database_name, '_', schema_name, '_', table_name, '_pkey')) AS constraint_name,
                     'false' as rely,
                     null as "comment"
-                FROM duckdb_constraints
+                FROM system.main.duckdb_constraints
                 WHERE constraint_type = '{kind} KEY'
-                  AND database_name = '{current_database}'
+                  AND database_name = '{database}'
                   AND table_name NOT LIKE '_fs_%'
                 """
 
-        scope_kind = expression.args.get("scope_kind")
-        if scope_kind:
-            table = expression.args["scope"]
-
-            if scope_kind == "SCHEMA":
-                db = table and table.db
-                schema = table and table.name
-                if db:
-                    statement += f"AND database_name = '{db}' "
-
-                if schema:
-                    statement += f"AND schema_name = '{schema}' "
-            elif scope_kind == "TABLE":
-                if not table:
-                    raise ValueError(f"SHOW PRIMARY KEYS with {scope_kind} scope requires a table")
-
-                statement += f"AND table_name = '{table.name}' "
-            else:
-                raise NotImplementedError(f"SHOW PRIMARY KEYS with {scope_kind} not yet supported")
+        if schema:
+            statement += f"AND schema_name = '{schema}' "
+        if table_name:
+            statement += f"AND table_name = '{table_name}' "
         return sqlglot.parse_one(statement)
     return expression
 
